@@ -1036,7 +1036,14 @@ def run_one(ctx, ds, src_names, opt, outdir, st, coq_cases, metas, rnd=None, sub
         r1.pop("tw", None)
         _, views1 = ref_pipeline(ds, src_names, dict(multi=True))
         try:
-            compare_views(views1, read_back(stage1), st)
+            got1 = read_back(stage1)
+            compare_views(views1, got1, st)
+            # The input of the second pass is what RecordReader yields from stage1.records (as for every source), not
+            # the reference's in-memory values: a stream round trip keeps the deep observation but may change a text
+            # form (a digest given in upper-case hex is printed in lower case after it went through the stream).
+            for g, v in zip(got1, views1):
+                g["uid"] = v.get("uid")
+            views1 = got1
         except Exception as e:  # noqa
             stage1_problem = "first pass (rdump <sources> --multi-timestamp -w stage1.records): %s" % e
         argv, writer = build_argv(ds, [], opt, outdir)
@@ -1508,8 +1515,9 @@ def replay(obj):
         if bad:
             print("replay: " + describe(bad))
             return 1
-        print("replay: rdump %s -> as specified%s" % (" ".join(obj.get("argv", [])[len(obj["sources"]):]),
-                                                     ""))
+        args = obj.get("argv", [])
+        print("replay: rdump %s -> as specified" % (" ".join(["stage1.records"] + args[1:]) if obj["opt"].get("twice")
+                                                     else " ".join(args[len(obj["sources"]):])))
         return 0
     finally:
         shutil.rmtree(work, ignore_errors=True)
